@@ -13,24 +13,40 @@ namespace Poetry.Marker
 open Poetry Poetry.Spec.Pep508
 
 /-- the releases `create_nested_marker` prints for bounds of two or three components -/
-def Q2 : String → List Nat → Prop :=
-  fun n lit => (n = "python_version" → lit.length = 2) ∧ (n = "python_full_version" → lit.length = 3)
+def Q2 : String → String → List Nat → Prop :=
+  fun n _ lit => (n = "python_version" → lit.length = 2) ∧ (n = "python_full_version" → lit.length = 3)
 
-theorem boundQ2 (m : Version) (h : 2 ≤ m.release.length) : BoundQ Q2 m := by
+theorem q2_pv (op : String) (a b : Nat) : Q2 "python_version" op [a, b] :=
+  ⟨fun _ => rfl, fun h => absurd h (by decide)⟩
+theorem q2_pfv (op : String) (a b c : Nat) : Q2 "python_full_version" op [a, b, c] :=
+  ⟨fun h => absurd h (by decide), fun _ => rfl⟩
+
+theorem boundLoQ2 (i : Bool) (m : Version) (h : 2 ≤ m.release.length) : BoundLoQ Q2 i m := by
   refine ⟨?_, ?_, ?_⟩
   · intro a e; rw [e] at h; simp at h
-  · intro a b _; exact ⟨⟨fun _ => rfl, fun h => absurd h (by decide)⟩, ⟨fun h => absurd h (by decide), fun _ => rfl⟩⟩
-  · intro a b c _; exact ⟨fun h => absurd h (by decide), fun _ => rfl⟩
+  · intro a b _; cases i <;> simp only [Bool.false_eq_true, if_false, if_true] <;>
+      first | exact q2_pfv _ _ _ _ | exact q2_pv _ _ _
+  · intro a b c _; cases i <;> simp only [Bool.false_eq_true, if_false, if_true] <;>
+      first | exact q2_pfv _ _ _ _ | exact q2_pv _ _ _
+
+theorem boundHiQ2 (i : Bool) (m : Version) (h : 2 ≤ m.release.length) : BoundHiQ Q2 i m := by
+  refine ⟨?_, ?_, ?_⟩
+  · intro a e; rw [e] at h; simp at h
+  · intro a b _; cases i <;> simp only [Bool.false_eq_true, if_false, if_true] <;>
+      first | exact q2_pfv _ _ _ _ | exact q2_pv _ _ _
+  · intro a b c _; cases i <;> simp only [Bool.false_eq_true, if_false, if_true] <;>
+      first | exact q2_pfv _ _ _ _ | exact q2_pv _ _ _
 
 /-- the bounds of the constraint have at least two components -/
 def PyPrec2 (c : VC) : Prop := ∀ rc ∈ c.flatten, ∀ e ∈ rc.bounds, 2 ≤ e.release.length
 
 theorem rcBoundQ2 (rc : RC) (h : ∀ e ∈ rc.bounds, 2 ≤ e.release.length) : RCBoundQ Q2 rc := by
   cases rc with
-  | ver v => exact boundQ2 v (h v (by simp [RC.bounds, RC.view, VRange.bounds, RC.min]))
+  | ver v => exact fun a b c _ => q2_pfv _ a b c
   | rng r =>
-    intro m hm
-    exact boundQ2 m (h m (by simpa [RC.bounds, RC.view, RC.min, RC.max, RC.imin, RC.imax] using hm))
+    refine ⟨fun m hm => boundLoQ2 _ m (h m ?_), fun m hm => boundHiQ2 _ m (h m ?_)⟩
+    · simp [RC.bounds, RC.view, VRange.bounds, RC.min, RC.max, hm]
+    · simp [RC.bounds, RC.view, VRange.bounds, RC.min, RC.max, hm]
 
 theorem cmpOp_pvOps {op : String} (h : CmpOp op) : ∃ sop, (sop, op) ∈ pvOps := by
   rcases h with rfl | rfl | rfl | rfl | rfl
